@@ -155,6 +155,174 @@ def describe(case):
     return {"grid": list(case["grid"]), "ops": [{k: (v.tolist() if isinstance(v, np.ndarray) else v) for k, v in o.items()} for o in case["ops"]]}
 
 
+def _compare_grid(epg, mk, shape, probes, kind, desc, dis):
+    """vectorised run of `mk(None)` against the scalar runs `mk(index)` at every index of `shape`"""
+    try:
+        with warnings.catch_warnings():
+            warnings.simplefilter("ignore")
+            seq = mk(None)
+            gshape = tuple(epg.getshape(seq))
+            res = epg.simulate(seq, probe=probes)
+    except Exception as exc:
+        dis.append({"kind": kind, "problems": [("vectorised simulate raised", repr(exc)[:300])], "input": desc})
+        return
+    problems = []
+    if gshape != tuple(shape):
+        problems.append(("getshape", gshape, tuple(shape)))
+    else:
+        for index in itertools.product(*[range(n) for n in shape]):
+            with warnings.catch_warnings():
+                warnings.simplefilter("ignore")
+                sres = epg.simulate(mk(index), probe=probes)
+            for pi, (a, b) in enumerate(zip(res, sres)):
+                a = np.asarray(a)
+                if a.shape[1:1 + len(shape)] != tuple(shape):
+                    problems.append((f"probe {pi} output shape", a.shape, tuple(shape)))
+                    break
+                a = a[(slice(None),) + index]
+                b = np.asarray(b).reshape(a.shape)
+                if not np.allclose(a, b, rtol=1e-9, atol=1e-12):
+                    problems.append((f"probe {pi} at index {index} (vectorised, scalar)", a.ravel()[:4].tolist(), b.ravel()[:4].tolist()))
+                    break
+            if problems:
+                break
+    if problems:
+        dis.append({"kind": kind, "problems": problems, "input": desc})
+
+
+def grid3_vs_scalar(r, epg, ncase):
+    """three parameters on three different grid axes through `axes=` (array given 1-D), with first / second derivatives of
+    scalar (E, P) and matrix (T, Phi) operators: signals, Jacobian and Hessian against the scalar runs"""
+    dis, checked = [], 0
+    for _ in range(ncase):
+        n = [int(r.integers(2, 4)) for _ in range(3)]
+        perm = [int(x) for x in r.permutation(3)]          # which axis carries alpha / T2 / g (or phi)
+        al = r.uniform(20, 160, size=n[perm[0]])
+        t2 = r.uniform(20, 150, size=n[perm[1]])
+        third = ["g", "phi", "tau"][r.integers(3)]
+        x3 = {"g": r.uniform(-0.05, 0.05, size=n[perm[2]]), "phi": r.uniform(-90, 90, size=n[perm[2]]),
+              "tau": r.uniform(2, 12, size=n[perm[2]])}[third]
+        second = bool(r.random() < 0.5)
+        kw = {"order1": True, "order2": True} if second else {"order1": True}
+
+        def mk(index, al=al, t2=t2, x3=x3, third=third, perm=perm, kw=kw):
+            def val(v, slot):
+                return v if index is None else float(v[index[perm[slot]]])
+            ax = (lambda slot: {"axes": perm[slot]}) if index is None else (lambda slot: {})
+            g = val(x3, 2) if third == "g" else 0.02
+            tau = val(x3, 2) if third == "tau" else 5.0
+            ekw = dict(kw)
+            seq = [epg.T(val(al, 0), 90, **ax(0), **kw)]
+            if third == "g":
+                seq += [epg.E(5.0, 800.0, val(t2, 1), **ax(1), **ekw), epg.P(4.0, g, **ax(2), **{"order1": True})]
+            elif third == "tau":
+                seq += [epg.E(5.0, 800.0, val(t2, 1), **ax(1), **ekw), epg.E(tau, 600.0, 70.0, 0.01, **ax(2), **ekw)]
+            else:
+                seq += [epg.E(5.0, 800.0, val(t2, 1), **ax(1), **ekw), epg.Phi(val(x3, 2), **ax(2), **{"order1": True})]
+            seq += [epg.S(1), epg.T(val(al, 0), 10, **ax(0), **kw), epg.E(5.0, 800.0, val(t2, 1), **ax(1), **ekw), epg.S(1), epg.ADC]
+            return seq
+
+        names = ["alpha", "T2"] + ({"g": ["g"], "phi": ["phi"], "tau": ["tau"]}[third])
+        probes = [epg.ADC, epg.Adc("Z0"), epg.Jacobian(names)] + ([epg.Hessian(names)] if second else [])
+        shape = [0, 0, 0]
+        for slot in range(3):
+            shape[perm[slot]] = n[perm[slot]]
+        checked += 1
+        _compare_grid(epg, mk, tuple(shape), probes, "c07-grid3",
+                      {"n": n, "perm": perm, "third": third, "second": second, "alpha": al.tolist(), "T2": t2.tolist(), "x3": x3.tolist()}, dis)
+    return checked, dis
+
+
+def batched_ops_vs_scalar(r, epg, ncase):
+    """operators whose array parameter is not a coefficient table: D with an array of diffusion times, S / G with a shift
+    per batch entry (same rank as the grid or lower, equal or different patterns per entry): signals against scalar runs"""
+    dis, checked = [], 0
+    for _ in range(ncase):
+        kind = ["D-tau", "S-lower-rank", "S-patterns", "S-float"][r.integers(4)]
+        n0, n1 = int(r.integers(2, 4)), int(r.integers(2, 4))
+        al = r.uniform(20, 160, size=n1)
+        if kind == "D-tau":
+            taus = r.uniform(2, 15, size=n0)
+            tensor = bool(r.random() < 0.4)
+            Dval = (np.diag(r.uniform(0.5e-3, 3e-3, size=2)) if tensor else float(r.uniform(0.5e-3, 3e-3)))
+            withk = bool(r.random() < 0.5)
+            kvec = [1, 0] if tensor else 1
+
+            def mk(index, taus=taus, al=al, Dval=Dval, withk=withk, kvec=kvec):
+                t = taus if index is None else float(taus[index[0]])
+                a = al.reshape(1, -1) if index is None else float(al[index[1]])
+                d = lambda: epg.D(t, Dval, **({"k": kvec} if withk else {}))
+                return [epg.T(a, 90), epg.S(kvec), d(), epg.E(5.0, 500.0, 50.0), epg.T(a, 0), epg.S(kvec), d(), epg.ADC]
+
+            opts = {"kvalue": 5000.0}
+            desc = {"kind": kind, "taus": taus.tolist(), "alpha": al.tolist(), "D": np.asarray(Dval).tolist(), "k_arg": withk}
+        else:
+            nsh = int(r.integers(2, 4))
+            if kind == "S-lower-rank":      # one shift per entry of axis 0, given with rank 1 in a rank-2 grid
+                ks = [np.repeat(r.integers(1, 3, size=(1, 1)), n0, axis=0) * r.integers(1, 3, size=(n0, 1)) for _ in range(nsh)]
+            elif kind == "S-patterns":      # different, non-proportional patterns per entry
+                ks = [r.integers(-2, 3, size=(n0, 1)) for _ in range(nsh)]
+                for k in ks:
+                    k[k == 0] = 1
+            else:                            # gridded float shifts
+                ks = [np.round(r.integers(-2, 3, size=(n0, 1)) * 0.5 + 0.0, 3) for _ in range(nsh)]
+                for k in ks:
+                    k[k == 0] = 0.5
+            rank2 = bool(r.random() < 0.5) and kind != "S-lower-rank"
+
+            def mk(index, ks=ks, al=al, rank2=rank2, kind=kind):
+                a = al.reshape(1, -1) if index is None else float(al[index[1]])
+                seq = [epg.T(a, 90)]
+                for j, k in enumerate(ks):
+                    if index is None:
+                        kk = k.reshape(k.shape[0], 1, 1) if rank2 else k
+                    else:
+                        kk = k[index[0]]
+                        kk = [float(kk[0])] if kind == "S-float" else [int(kk[0])]
+                    seq += [epg.S(kk), epg.E(4.0, 700.0, 60.0), epg.T(a * 0.5 + 20 * j, 15 * j), epg.ADC, epg.Adc("Z0")]
+                return seq
+
+            opts = {"kgrid": 0.5} if kind == "S-float" else {}
+            desc = {"kind": kind, "ks": [k.tolist() for k in ks], "alpha": al.tolist(), "rank2": rank2}
+        checked += 1
+        sim = epg.simulate
+
+        class _E:   # simulate with the options of this case
+            def __getattr__(self, name):
+                return getattr(epg, name)
+
+            def simulate(self, seq, probe=None):
+                return sim(seq, **opts)
+        _compare_grid_plain(_E(), mk, (n0, n1), "c07-batched-ops", desc, dis)
+    return checked, dis
+
+
+def _compare_grid_plain(epg, mk, shape, kind, desc, dis):
+    try:
+        with warnings.catch_warnings():
+            warnings.simplefilter("ignore")
+            seq = mk(None)
+            gshape = tuple(epg.getshape(seq))
+            res = np.asarray(epg.simulate(seq))
+    except Exception as exc:
+        dis.append({"kind": kind, "problems": [("vectorised simulate raised", repr(exc)[:300])], "input": desc})
+        return
+    problems = []
+    if gshape != tuple(shape) or res.shape[1:] != tuple(shape):
+        problems.append(("shape (getshape, result)", gshape, res.shape, tuple(shape)))
+    else:
+        for index in itertools.product(*[range(n) for n in shape]):
+            with warnings.catch_warnings():
+                warnings.simplefilter("ignore")
+                b = np.asarray(epg.simulate(mk(index))).reshape(-1)
+            a = res[(slice(None),) + index].reshape(-1)
+            if not np.allclose(a, b, rtol=1e-9, atol=1e-12):
+                problems.append((f"signals at index {index} (vectorised, scalar)", a.tolist(), b.tolist()))
+                break
+    if problems:
+        dis.append({"kind": kind, "problems": problems, "input": desc})
+
+
 def axes_placement(r, epg, ncase):
     """`axes=k` places a 1-D parameter on axis k: equals passing the array reshaped with k leading singletons"""
     dis, checked = [], 0
